@@ -361,6 +361,9 @@ void parse_itmz_token_chain(mmd_engine * e, token * chain) {
 	// Clean up token chain
 	token_tree_free(chain);
 
+	// The root was part of that chain
+	e->root = NULL;
+
 	ITMZFree(pParser, free);
 }
 
